@@ -1,14 +1,16 @@
 SPECIFICATION TrSpec
 CONSTANTS
-    IdOrder <- MCIds5
+    IdOrder <- MCIds6
     ValOrder <- MCVals
     Payloads = {1}
     SegOrder <- MCSegs
     GlobTable <- MCGlob
     Grid <- MCGridTiny
+    TxGrid <- MCGridTiny
     JoinCollapse = FALSE
     NoLimitRaw = FALSE
     Faults = TRUE
+    MaxTxOps = 1
     CheckImpl = FALSE
 CONSTRAINT HW
 POSTCONDITION Accepted
